@@ -1,17 +1,12 @@
 (** C25 — Only active tasks are scheduled.  Property theorems only.
 
-    FULL STATEMENT (refuted by the faithful model, see [C25_scheduled_iff_active_refuted]):
-      forall ops, valid_ops ops -> scheduled_iff_active (run false ops)
-    i.e. after ANY history of create / update / delete / restart through the
-    coordinating task service, the scheduler's set is exactly the existing tasks whose
-    status is active, each with its latest schedule.  It fails because
-    [Coordinator.TaskCreated] schedules unconditionally: a task created with status
-    "inactive" is scheduled.  What is proved instead, for ALL histories (unbounded):
-      - [_partial]: the full statement for histories without an inactive create;
-      - the two halves that survive: every active task is scheduled with its latest
-        schedule; every scheduled id is an existing task;
-      - the one-line repair (schedule in TaskCreated only if active) gives the full
-        statement for all histories. *)
+    Main theorem [C25_scheduled_iff_active]: after ANY history (unbounded) of create /
+    update / delete / restart through the coordinating task service, with parsable
+    schedules, the scheduler's set is exactly the existing tasks whose status is
+    active, each with its latest schedule.  It is about the code as it is since /repo
+    commit da7c7e4fac ([run true]); before that commit [TaskCreated] scheduled a task
+    created with status inactive ([C25_before_fix_counterexample], an Example kept for
+    the record, about [run false]). *)
 From Verif Require Import Base.Prelude Model.C25 Proofs.C25.
 
 (** every schedule handed to create/update is a parsable cron/every (not "") *)
@@ -37,67 +32,74 @@ Proof.
   exact (proj1 (Forall_forall _ _) (Hn Hs Hf) _ Ho).
 Qed.
 
-Theorem C25_scheduled_iff_active_refuted :
-  exists ops, Forall valid_op ops /\ ~ scheduled_iff_active (run false ops).
+Theorem C25_scheduled_iff_active :
+  forall ops, Forall valid_op ops -> scheduled_iff_active (run true ops).
 Proof.
-  exists [Create (Some false) {| sc_spec := 1; sc_off := 0 |}]. split.
-  - repeat constructor.
-  - intro H. specialize (H 1%N). vm_compute in H. discriminate.
+  intros ops Hv. apply inv_strict_iff. apply run_inv. apply ok_of; auto. discriminate.
 Qed.
-Print Assumptions C25_scheduled_iff_active_refuted.
+Print Assumptions C25_scheduled_iff_active.
 
-Theorem C25_scheduled_iff_active_partial :
+Theorem C25_active_tasks_always_scheduled :
+  forall ops, Forall valid_op ops ->
+  forall id t, lookup id (st_tasks (run true ops)) = Some t -> t_active t = true ->
+    lookup id (st_sch (run true ops)) = Some (t_sched t).
+Proof.
+  intros ops Hv id t Hl Ha.
+  assert (I : inv false (run true ops)) by (apply run_inv; apply ok_of; auto; discriminate).
+  specialize (I id). rewrite Hl, Ha in I. exact I.
+Qed.
+Print Assumptions C25_active_tasks_always_scheduled.
+
+Theorem C25_inactive_tasks_never_scheduled :
+  forall ops, Forall valid_op ops ->
+  forall id t, lookup id (st_tasks (run true ops)) = Some t -> t_active t = false ->
+    lookup id (st_sch (run true ops)) = None.
+Proof.
+  intros ops Hv id t Hl Ha. rewrite (C25_scheduled_iff_active ops Hv id).
+  unfold expected. rewrite Hl, Ha. reflexivity.
+Qed.
+Print Assumptions C25_inactive_tasks_never_scheduled.
+
+Theorem C25_scheduled_tasks_exist :
+  forall ops, Forall valid_op ops ->
+  forall id s, lookup id (st_sch (run true ops)) = Some s ->
+    exists t, lookup id (st_tasks (run true ops)) = Some t.
+Proof.
+  intros ops Hv id s Hl.
+  assert (I : inv false (run true ops)) by (apply run_inv; apply ok_of; auto; discriminate).
+  specialize (I id). destruct (lookup id (st_tasks (run true ops))) as [t|]; [eauto|congruence].
+Qed.
+Print Assumptions C25_scheduled_tasks_exist.
+
+(** The code before the fix also satisfied the statement on histories without an
+    inactive create (kept: it is what the pre-fix correspondence runs relied on). *)
+Theorem C25_before_fix_without_inactive_create :
   forall ops, Forall valid_op ops -> Forall not_inactive_create ops ->
     scheduled_iff_active (run false ops).
 Proof.
   intros ops Hv Hn. apply inv_strict_iff. apply run_inv. apply ok_of; auto.
 Qed.
-Print Assumptions C25_scheduled_iff_active_partial.
+Print Assumptions C25_before_fix_without_inactive_create.
 
-Theorem C25_active_tasks_always_scheduled :
-  forall ops, Forall valid_op ops ->
-  forall id t, lookup id (st_tasks (run false ops)) = Some t -> t_active t = true ->
-    lookup id (st_sch (run false ops)) = Some (t_sched t).
-Proof.
-  intros ops Hv id t Hl Ha.
-  assert (I : inv false (run false ops)) by (apply run_inv; apply ok_of; auto; discriminate).
-  specialize (I id). rewrite Hl, Ha in I. exact I.
-Qed.
-Print Assumptions C25_active_tasks_always_scheduled.
+Example C25_before_fix_counterexample :
+  ~ scheduled_iff_active (run false [Create (Some false) {| sc_spec := 1; sc_off := 0 |}]).
+Proof. intro H. specialize (H 1%N). vm_compute in H. discriminate. Qed.
 
-Theorem C25_scheduled_tasks_exist :
-  forall ops, Forall valid_op ops ->
-  forall id s, lookup id (st_sch (run false ops)) = Some s ->
-    exists t, lookup id (st_tasks (run false ops)) = Some t.
-Proof.
-  intros ops Hv id s Hl.
-  assert (I : inv false (run false ops)) by (apply run_inv; apply ok_of; auto; discriminate).
-  specialize (I id). destruct (lookup id (st_tasks (run false ops))) as [t|]; [eauto|congruence].
-Qed.
-Print Assumptions C25_scheduled_tasks_exist.
-
-Theorem C25_fix_restores_scheduled_iff_active :
-  forall ops, Forall valid_op ops -> scheduled_iff_active (run true ops).
-Proof.
-  intros ops Hv. apply inv_strict_iff. apply run_inv. apply ok_of; auto. discriminate.
-Qed.
-Print Assumptions C25_fix_restores_scheduled_iff_active.
-
-(** Non-vacuity: a history with creates (active by default and explicitly), a schedule
-    update, a deactivation, a re-activation, a delete and a restart satisfies the
-    hypotheses of [_partial]; the scheduler then holds exactly tasks 1 and 3. *)
+(** Non-vacuity: a history with creates (default, active AND inactive), a schedule
+    update of an inactive task, activation, deactivation, delete and restart; the
+    scheduler then holds exactly tasks 1 and 4 (task 4 was created inactive, had its
+    schedule changed while inactive, and was then activated: latest schedule). *)
 Example C25_nonvacuous :
   let s1 := {| sc_spec := 1; sc_off := 0 |} in
   let s2 := {| sc_spec := 2; sc_off := 5 |} in
-  let ops := [Create None s1; Create (Some true) s2; Create None s1;
+  let ops := [Create None s1; Create (Some true) s2; Create None s1; Create (Some false) s1;
               Update 1 None (Some 2%N) (Some 7%Z); Update 2 (Some false) None None;
-              Update 3 (Some false) None None; Update 3 (Some true) None None;
-              Delete 2; Restart] in
-  Forall valid_op ops /\ Forall not_inactive_create ops /\
-  st_sch (run false ops) = [(1%N, {| sc_spec := 2; sc_off := 7 |}); (3%N, s1)].
+              Update 4 None (Some 2%N) None; Update 3 (Some false) None None;
+              Update 4 (Some true) None None; Delete 2; Restart] in
+  Forall valid_op ops /\
+  st_sch (run true ops) = [(1%N, {| sc_spec := 2; sc_off := 7 |}); (4%N, {| sc_spec := 2; sc_off := 0 |})].
 Proof.
-  cbn zeta. split; [|split].
+  cbn zeta. split.
   - repeat constructor; cbn; congruence.
-  - repeat constructor.
   - vm_compute. reflexivity.
 Qed.
